@@ -27,6 +27,7 @@ pub mod verif_kani {
     /// (Verus lemma_rem_mod: those remainders depend on the seed modulo 10! only.)
     #[kani::proof]
     #[kani::unwind(12)]
+    #[kani::solver(kissat)]
     pub fn c16_remap_by_digits() {
         let s1: u32 = kani::any();
         let s2: u32 = kani::any();
